@@ -1,1 +1,6 @@
-/-! STUB — property C07 is not built yet. -/
+import Martian.Lemmas.Shutdown
+/-! C07 — placeholder while the harness is brought up (replaced below). -/
+namespace Martian.Props.C07
+open Martian.Shutdown
+theorem reachable_invariant {s : Sys} (h : Reachable s) : Good s := reachable_good h
+end Martian.Props.C07
